@@ -31,7 +31,7 @@ ASSUME13 = [
     "first, and the answer must not be taken for the vector's; some GETINFO vectors are issued twice in a row behind a busy connection "
     "(two callers asking the same): both must get the value; some are issued while a multi-line event is half received; some are "
     "fallbacks, issued from the error handler of a request Tor has just refused; some follow a completely answered incremental "
-    "(per-line callback) request; during some, another control connection of the same process receives a data-block reply of its own; some replies are cut short inside their final line by the loss of the "
+    "(per-line callback) request; during some, another control connection of the same process receives a data-block reply of its own; during some, a GETINFO for other keys is queued behind the request; some replies are cut short inside their final line by the loss of the "
     "connection (cutloss: the call must fail, not return a value made from the part that arrived); before some, the "
     "very same exchange took place (on this and on another connection) and the callers took their results apart",
 ]
@@ -145,7 +145,7 @@ def run(pid, tier, seed):
         rep.assumptions = list(ASSUME13)
         rep.tlc("KvLine_MC (grammar round trip)", tlc.run_tlc("KvLine_MC", "KvLine_MC_quick.cfg", workers=16, timeout=900))
         recs = []
-        noises = ["none"] * 6 + ["%s@%s" % (sh, at) for sh in ("midline", "block", "single") for at in ("before", "during")] + ["cancel@before"] * 2 + ["twin@before"] * 2 + ["split@before"] * 2 + ["fallback@before"] * 2 + ["incremental@before"] * 2 + ["otherconn@during"] * 2 + ["spoiled@before"] * 3 + ["cutloss%d@end" % k for k in (1, 2, 3, 4, 5, 7)]
+        noises = ["none"] * 6 + ["%s@%s" % (sh, at) for sh in ("midline", "block", "single") for at in ("before", "during")] + ["cancel@before"] * 2 + ["twin@before"] * 2 + ["split@before"] * 2 + ["fallback@before"] * 2 + ["incremental@before"] * 2 + ["otherconn@during"] * 2 + ["spoiled@before"] * 3 + ["cutloss%d@end" % k for k in (1, 2, 3, 4, 5, 7)] + ["queuedinfo@during"] * 3
         for i, v in enumerate(vectors13(tier, seed)):
             noise = rng.choice(noises)
             # every other single-key request goes through the single-value form of the API
